@@ -562,7 +562,8 @@ def background_fill(P, rep, rule="EXPR.background"):
         want_cond = ("((fabs(depth)<(2.0*std::numeric_limits<double>::epsilon()))&&force_surface_temperature)",
                      "((std::fabs(depth)<(2.0*std::numeric_limits<double>::epsilon()))&&force_surface_temperature)",
                      "((std::fabs(depth)<(2.0*std::numeric_limits::epsilon()))&&force_surface_temperature)")
-        cs = astq.sc(ifs[0]["c"][0])
+        from .guard import expand_cond
+        cs = astq.sc(expand_cond(P, F, ifs[0]["c"][0]))
         conj = []
 
         def split(x):
@@ -600,12 +601,28 @@ def background_fill(P, rep, rule="EXPR.background"):
         else:
             rep.violation(rule, "background temperature", F.nloc(ifs[0]), F.qn, "", "%d values appended on the regular path" % len(normal), key=rule + "|adiabat-count")
     # composition, tag, velocity
+    def fill_form(mc):
+        """(count node, value node) of output.insert(output.end(), count, value), else None"""
+        if mc[1] != "insert" or len(mc[2]) != 3:
+            return None
+        pos = astq.member_call(P, mc[2][0], "end")
+        if not pos or astq.member_call(P, mc[2][1], "begin"):
+            return None
+        return mc[2][1], mc[2][2]
     for kind, want_vals, label in ((2, [0], "composition"), (4, [-1], "tag"), (5, [0, 0, 0], "velocity")):
         app = appended(cases.get(kind, []))
         vals = []
         for n, mc in app:
             try:
-                vals.append(sym(mc[2][0]))
+                ff = fill_form(mc)
+                if ff is not None:
+                    cnt = sym(ff[0])
+                    if cnt.is_Integer and 0 < int(cnt) <= 16:
+                        vals += [sym(ff[1])] * int(cnt)
+                    else:
+                        vals.append(None)
+                else:
+                    vals.append(sym(mc[2][0]))
             except Exception:
                 vals.append(None)
         if [sp.nsimplify(v) if v is not None else None for v in vals] == [sp.Integer(w) for w in want_vals]:
@@ -625,6 +642,16 @@ def background_fill(P, rep, rule="EXPR.background"):
                     if init.get("k") in ("CXXConstructExpr", "CXXTemporaryObjectExpr") and len(init["c"]) >= 2:
                         fill = sc(init["c"][1])
                         okg = fill.get("k") in ("FloatingLiteral", "IntegerLiteral") and float(fill.get("v")) == 0.0
+    if not okg and len(app) == 1 and fill_form(app[0][1]) is not None:
+        cnt_n, val_n = fill_form(app[0][1])
+        fill = sc(val_n)
+        try:
+            cnt = sp.expand(norm.Sym(P, F, inline_locals=False, hook=layout.prop_hook(P))(cnt_n))
+        except Exception:
+            cnt = None
+        zero = fill is not None and fill.get("k") in ("FloatingLiteral", "IntegerLiteral") and float(fill.get("v")) == 0.0
+        # the count itself is compared with the width tables by LAYOUT.L1; here: ten values per grain, all zero
+        okg = zero and cnt is not None and cnt != 0 and sp.expand(cnt / 10).is_polynomial() and not sp.expand(cnt / 10).has(sp.Rational(1, 10))
     if okg:
         rep.ok(rule, "background grains = 10*n zeros", F.nloc(app[0][0]), F.qn)
     else:
